@@ -358,25 +358,44 @@ func (m *kModel) removeEffective(t *kTimer) bool {
 }
 
 // TimerSection applies the critical section of a fired timer callback of record
-// r (the hook point identifies the record). Several callbacks of one record are
-// indistinguishable, but they all perform the same check on the same record.
-func (m *kModel) TimerSection(retry bool, r *kRec) {
+// r (the hook point identifies the record). A callback whose timer was stopped
+// after it had fired (Timer.Stop cannot recall it) must have no effect: the key
+// was restarted, re-requested or removed again in the meantime, and acting now
+// would retry before the current back-off elapsed or remove the key before its
+// current release delay expired. Live callbacks of one record are preferred over
+// stopped ones when both wait (they are indistinguishable at the hook point).
+func (m *kModel) TimerSection(retry bool, r *kRec) (stale bool) {
+	pick := -1
 	for i, t := range m.fired {
-		if t.retry == retry && t.rec == r {
-			m.fired = append(m.fired[:i], m.fired[i+1:]...)
-			if retry && r.retry == t {
-				r.retry = nil
-			}
+		if t.retry != retry || t.rec != r {
+			continue
+		}
+		if !t.stopped {
+			pick = i
 			break
+		}
+		if pick < 0 {
+			pick = i
+		}
+	}
+	if pick >= 0 {
+		t := m.fired[pick]
+		m.fired = append(m.fired[:pick], m.fired[pick+1:]...)
+		if retry && r.retry == t {
+			r.retry = nil
+		}
+		if t.stopped {
+			return true
 		}
 	}
 	if retry {
 		if m.ctxID != 0 && r.present && (r.status == stFailed || r.status == stSucceeded) {
 			m.start(r, true)
 		}
-		return
+		return false
 	}
 	if r.present && r.remove != nil {
 		m.removeNow(r)
 	}
+	return false
 }
